@@ -85,8 +85,11 @@ package fileutil
 // gMWptr / gMWlen: the buffer last handed to MustWrite (used to say WHICH bytes a checksum was computed over)
 //@ ghost var gMWptr int
 //@ ghost var gMWlen int
+// gMWcount: number of MustWrite calls since the counter was last cleared (a hash's Reset clears it)
+//@ ghost var gMWcount int
 //@ func MustWrite [C14 C16]
 //@ trusted two-line body: w.Write(data), panics on error
-//@ modifies gMWptr, gMWlen
+//@ modifies gMWptr, gMWlen, gMWcount
+//@ ghostset gMWcount := old(gMWcount) + 1
 //@ ghostset gMWptr := ptr(data)
 //@ ghostset gMWlen := len(data)
